@@ -279,7 +279,8 @@ def drive(cv, hold=lambda i, rq: False, on_request=None, max_requests=6, answer=
         out.append(s)
         if on_request:
             on_request(i, r, s)
-        if hold(i, r):
+        if hold(i, r) or held:
+            # a response can only be written when all earlier ones are out: later requests wait behind a held one
             held.append(r)
         else:
             answer(r)
